@@ -3,6 +3,7 @@ package main
 import (
 	"sync"
 	"sync/atomic"
+	"time"
 
 	"verif/rig"
 	"vh/e2e"
@@ -57,6 +58,11 @@ func (m *monitor) runBoundary(ns *rig.NatsServer, spec legSpec, legIdx int) {
 					Req: headerSet{Classes: map[string]bool{"v:boundary": true}}, Rsp: headerSet{Classes: map[string]bool{}}}
 				cs.Token = "k" + itoa(cs.ID)
 				cs.CID = "c-" + cs.Token
+				if i%4 == 0 {
+					// every 4th directed call asks for "no deadline" (timeout 0 / negative)
+					d := []time.Duration{0, -time.Millisecond, -500 * time.Microsecond}[(i/4)%3]
+					cs.TOSpecial, cs.TOms, cs.TOCls = &d, 0, "zero"
+				}
 				m.run.Add("boundary_calls", 1)
 				if cc := lr.newConn(); cc != nil {
 					lr.oneCallOn(cc, cs)
